@@ -210,6 +210,8 @@ var httpSpecs = map[string][]reqSpec{
 		{Verb: "GET", Path: "/rs/x/k6", Binding: "var", Unless: "C"},
 		{Verb: "GET", Path: "/cfg/a/k7", Binding: "config"},
 		{Verb: "GET", Path: "/rs/v2/k8", Binding: "var-v2", OnlyFrom: "b4"},
+		{Verb: "GET", Path: "/sv/k1/sa", Binding: "shared-var", Want: []string{"a=k1"}},
+		{Verb: "GET", Path: "/sv/sh/x/pa", Binding: "shared-var", Want: []string{"a=sh/x"}},
 	},
 	"/vf.rs.A/Put": {
 		{Verb: "POST", Path: "/rs/put", Body: `{"a":"p1"}`, Binding: "body"},
@@ -222,10 +224,14 @@ var httpSpecs = map[string][]reqSpec{
 		{Verb: "POST", Path: "/vf.rs.B/Get", Body: `{"a":"k3"}`, Binding: "implicit"},
 		{Verb: "GET", Path: "/rs/b2/k4/5", Binding: "var"},
 		{Verb: "GET", Path: "/cfg/b/k5", Binding: "config"},
+		{Verb: "GET", Path: "/sv/k1/sb", Binding: "shared-var"},
+		{Verb: "GET", Path: "/sv/sh/x/pb", Binding: "shared-var"},
 	},
 	"/vf.rs.T/Get": {
 		{Verb: "GET", Path: "/rs/t/k1", Binding: "var"},
 		{Verb: "POST", Path: "/vf.rs.T/Get", Body: `{"a":"k2"}`, Binding: "implicit"},
+		{Verb: "GET", Path: "/sv/k1/st", Binding: "shared-var"},
+		{Verb: "GET", Path: "/sv/sh/x/pt", Binding: "shared-var"},
 	},
 	"/vf.rs.A/Extra": {
 		{Verb: "GET", Path: "/rs/extra/k1", Binding: "var", Want: []string{"a=k1"}},
@@ -237,16 +243,21 @@ var httpSpecs = map[string][]reqSpec{
 		{Verb: "GET", Path: "/rs/d1v2/k3", Binding: "var-rev2", OnlyFrom: "bd-rev2"},
 		{Verb: "GET", Path: "/rs/orgs/o/things/t", Binding: "var-rev2", OnlyFrom: "bd-rev2"},
 		{Verb: "GET", Path: "/rs/projects/p/things/t", Binding: "var-rev2", OnlyFrom: "bd-rev2"},
+		{Verb: "GET", Path: "/sv/k1/sd1", Binding: "shared-var"},
 	},
 	"/vf.rs.D2/Get": {
 		{Verb: "GET", Path: "/rs/d2/k1", Binding: "var"},
 		{Verb: "POST", Path: "/vf.rs.D2/Get", Body: `{"a":"k2"}`, Binding: "implicit"},
+		{Verb: "GET", Path: "/sv/k1/sd2", Binding: "shared-var"},
+		{Verb: "GET", Path: "/sv/sh/x/pd2", Binding: "shared-var"},
 	},
 	"/vf.rs.C/Get": {
 		{Verb: "GET", Path: "/rs/c/k1", Binding: "var"},
 		{Verb: "POST", Path: "/vf.rs.C/Get", Body: `{"a":"k2"}`, Binding: "implicit"},
 		{Verb: "GET", Path: "/rs/c2/k3/4", Binding: "var"},
 		{Verb: "GET", Path: "/rs/x/k5", Binding: "var", Unless: "A"},
+		{Verb: "GET", Path: "/sv/k1/sc", Binding: "shared-var"},
+		{Verb: "GET", Path: "/sv/sh/x/pc", Binding: "shared-var"},
 	},
 }
 
